@@ -318,3 +318,77 @@ def _ssi_unknown(spec, chunk_types, index_types, unknown_axes):
 SSI1 = _ssi_unknown("nan-axis0-slice", "tup:(tup:nan,nan)", "tup:slice", [0])
 SSI3 = _ssi_unknown("nan-axis1-of-2", "tup:(tup:int,int),(tup:int,nan)", "tup:slice,slice", [1])
 SSI4 = _ssi_unknown("nan-axis0-of-2-int-slice", "tup:(tup:nan),(tup:int,int)", "tup:int,slice", [0])
+
+
+# ---------------------------------------------------------------------------
+# C02: the slice each operand of a plain Blockwise receives when a slice is pushed through it (fragment)
+# ---------------------------------------------------------------------------
+def _operand_slices(spec, arg_labels, out_labels):
+    nd = len(arg_labels)
+    no = len(out_labels)
+
+    @contract(f"{BW}::Blockwise._accept_slice", spec=spec, props=["C02"])
+    class operand_slices:
+        """the part of Blockwise._accept_slice that builds one operand's index: along an axis the operand shares with the
+        output it gets the output's slice for that axis -- unless the operand has length 1 there and is broadcast against a
+        longer output axis, in which case it is read whole; an axis the output does not have is read whole.  So the sliced
+        operand holds exactly the elements the sliced output is computed from"""
+        fragment = {"first": "arg_slices = []", "first_nth": 2, "last": "for arg_axis, dim_idx in enumerate(arg_ind):"}
+        params = {"arg": "obj:Arr", "self": "obj:BW", "arg_ind": "const", "out_ind": "const",
+                  "slice_index": "tup:" + ",".join(["slice"] * no)}
+        consts = {"arg_ind": tuple(arg_labels), "out_ind": tuple(out_labels)}
+        fields = {"Arr": {"shape": "tup:" + ",".join(["int"] * nd)}, "BW": {"shape": "tup:" + ",".join(["int"] * no)}}
+        result = None
+
+        def requires(arg, self, arg_ind, out_ind, slice_index):
+            return True
+
+        def ensures(result, arg, self, arg_ind, out_ind, slice_index, env=None, calls=None):
+            E = env if env is not None else result
+            got = E.arg_slices
+            items = got.items if hasattr(got, "items") and not isinstance(got, (list, tuple)) else list(got)
+            out = {"one-slice-per-operand-axis": len(items) == nd}
+            for a, lab in enumerate(arg_labels):
+                if a >= len(items):
+                    continue
+                if lab not in out_labels:
+                    out[f"axis-{a}-absent-from-the-output-is-read-whole"] = _is_full(items[a])
+                    continue
+                pos = list(out_labels).index(lab)
+                bc = S.And(S.item(arg.get("shape"), a) == 1, S.item(self.get("shape"), pos) != 1)
+                same = _slice_same(items[a], S.item(slice_index, pos))
+                key = f"axis-{a}-gets-the-output-slice-or-is-read-whole-when-broadcast"
+                out[key] = S.If(bc, _is_full(items[a]), same) if env is not None else (_is_full(items[a]) if bc else same)
+            return out
+
+        def domain(tier, rng):
+            from pyvc.concrete import Rec
+            sl = [slice(None), slice(1, 3), slice(0, 1), slice(2, None)]
+            for ash in ([(4, 6), (1, 6), (4, 1), (1, 1)] if nd == 2 else [(6,), (1,)]):
+                for osh in [(4, 6), (1, 6)]:
+                    for s0 in sl:
+                        for s1 in sl[:3]:
+                            yield {"arg": Rec(shape=ash), "self": Rec(shape=osh[:no]), "arg_ind": tuple(arg_labels), "out_ind": tuple(out_labels),
+                                   "slice_index": (s0, s1)[:no]}
+
+    operand_slices.__name__ = "operand_slices_" + spec.replace("-", "_")
+    return operand_slices
+
+
+def _is_full(s):
+    if isinstance(s, slice):
+        return s == slice(None)
+    a, b, c = S.parts(s)
+    return S.And(S.is_none(a), S.is_none(b), S.is_none(c))
+
+
+def _slice_same(a, b):
+    if isinstance(a, slice) or isinstance(b, slice):
+        return a == b
+    return S.slice_eq(a, b)
+
+
+OS1 = _operand_slices("operand-index-ij-of-ij", ("i", "j"), ("i", "j"))
+OS2 = _operand_slices("operand-index-ji-of-ij", ("j", "i"), ("i", "j"))
+OS3 = _operand_slices("operand-index-j-of-ij", ("j",), ("i", "j"))
+OS4 = _operand_slices("operand-index-ik-of-ij", ("i", "k"), ("i", "j"))
